@@ -10,9 +10,39 @@ from common import BUILD, sha
 CACHE = os.path.join(BUILD, "cache")
 
 
+ROOT_OF = {"lexcfg": "LexerMC", "respell": "LexerRespellMC", "literals": "LiteralsMC", "driver": "DriverMC", "normsim": "ViolMC",
+           "normexh": "ViolMC", "violexh": "ViolMC", "limits": "LimitsMC", "header42": "Header42MC", "guard": "GuardMC",
+           "locality": "LocalityMC", "edits": "EditsMC", "garbage": "GarbageMC", "report": "Report"}
+
+
+def closure(root):
+    """the modules of /verif/spec that `root` depends on (EXTENDS / INSTANCE, transitively)"""
+    import re
+    from common import SPEC
+    seen, todo = [], [root]
+    while todo:
+        m = todo.pop()
+        f = os.path.join(SPEC, m + ".tla")
+        if m in seen or not os.path.exists(f):
+            continue
+        seen.append(m)
+        txt = open(f).read()
+        for line in re.findall(r"^\s*EXTENDS\s+(.*)$", txt, re.M):
+            todo += [x.strip() for x in line.split(",")]
+        todo += re.findall(r"INSTANCE\s+(\w+)", txt)
+    return sorted(seen)
+
+
 def key(*parts):
+    """cache key: the modules the configuration's root depends on + the extracted tables + the configuration"""
     ext = os.path.join(BUILD, "Extracted.tla")
-    return sha(tlc.spec_digest([ext] if os.path.exists(ext) else []), json.dumps(parts, sort_keys=True, default=str))
+    root = ROOT_OF.get(parts[0]) if parts else None
+    files = [os.path.join(os.path.dirname(ext), "..", "spec", m + ".tla") for m in closure(root)] if root else tlc.spec_files()
+    blobs = []
+    for f in files + ([ext] if os.path.exists(ext) else []):
+        with open(f, "rb") as fh:
+            blobs.append(fh.read())
+    return sha(*blobs, json.dumps(parts, sort_keys=True, default=str))
 
 
 def get(k):
